@@ -515,7 +515,15 @@ def run(ctx):
             for x in keys:
                 got = xs[x].to_dense().reshape(-1).tolist() if x in xs else [zero] * sizes[x]
                 m = mblocks[kidx[x]]
-                if len(got) != len(m) or not all(semgen.exact_eq(g, c, torch.float64) for g, c in zip(got, m)):
+                def _eq(g, c):
+                    if semgen.exact_eq(g, c, torch.float64):
+                        return True
+                    # Real: the LU fast path of RealSemiring.solve_thunks (torch.linalg.solve, not modelled) rounds: an exact 0 may come
+                    # out as 5e-17 (false alarm of sweep 6, seed 41); values are compared within 1e-9 relative / 1e-12 absolute
+                    if name == 'real' and not isinstance(c, float) and isinstance(g, float) and math.isfinite(g):
+                        return abs(g - float(c)) <= 1e-12 + 1e-9 * abs(float(c))
+                    return False
+                if len(got) != len(m) or not all(_eq(g, c) for g, c in zip(got, m)):
                     if name == 'real' and len(got) == len(m) and _singular(A) and \
                             all(semgen.exact_eq(g, c, torch.float64) or (isinstance(c, float) and c == math.inf and math.isfinite(g) and g > 1e9)
                                 for g, c in zip(got, m)):
